@@ -325,6 +325,24 @@ theorem C15_cross_type_counterexample :
     Comparison.compareLegacy ⟨.lt, .i64 30⟩ (.bytes [10]) = true := by
   decide
 
+/-- nodes 1, 2 and edge −3: 1→2. -/
+def gPair : Graph :=
+  let g := Graph.empty.insertNode.2.insertNode.2
+  match g.insertEdge 1 2 with
+  | .ok (_, g') => g'
+  | _ => g
+
+/-- On the unchanged tree the path search evaluates an edge at the distance of the node behind it:
+`search().from(1).to(2).where_().distance(NotEqual(1))` lists edge −3 (it is at distance 1); with
+proposed_fixes/C15-path-edge-distance.diff it does not, as bfs/dfs and the documentation have it. -/
+theorem C15_path_edge_distance_counterexample :
+    pathSearch true gPair (evalConds true gPair (.leaf .and .none (.distance ⟨.notEqual, 1⟩) .nil)) 1 2 gPair.fuel
+      = .ok [1, -3, 2] ∧
+    pathSearch false gPair (evalConds false gPair (.leaf .and .none (.distance ⟨.notEqual, 1⟩) .nil)) 1 2 gPair.fuel
+      = .ok [1, 2] ∧
+    search false gPair ⟨.bfs, 1, 0, 0, 0, [], .leaf .and .none (.distance ⟨.notEqual, 1⟩) .nil⟩ = .ok [1, 2] := by
+  decide
+
 /-! ### Non-vacuity -/
 
 example : Comparison.compare ⟨.gt, .i64 30⟩ (.u64 5) = false := by decide
